@@ -30,6 +30,8 @@ var c06ReqCands = []string{
 	"||ads.com^$domain=ref.com,badfilter", "@@||ads.com^$important,badfilter",
 	"/banner", "/banner$important", "@@/banner$image", "/banner$badfilter",
 	"||ads.com^$domain=ref.com|x.com", "||ads.com^$domain=x.com|x.com,badfilter", "||ads.com^$domain=x.com|ref.com,badfilter",
+	// a $badfilter rule that carries a rewrite is the twin of the rewrite rule only, never of the plain rule
+	"||ads.com^$dnsrewrite=1.2.3.4,badfilter", "@@||ads.com^$dnsrewrite,badfilter",
 }
 
 var c06SrcCands = []string{
@@ -45,6 +47,7 @@ var c06DNSCands = []string{
 	"||ads.com^$client=~1.1.1.1", "||ads.com^$dnsrewrite=1.2.3.4", "@@||ads.com^$dnsrewrite", "||ads.com^$important,dnsrewrite=NXDOMAIN",
 	"||ads.com^$badfilter", "||ads.com^$important,badfilter", "@@||ads.com^$badfilter", "@@||ads.com^$important,badfilter", "ads.com^$dnstype=A,badfilter",
 	"||ads.com^$denyallow=x.com", "@@||ads.com^$ctag=~tv",
+	"||ads.com^$dnsrewrite=1.2.3.4,badfilter", "||ads.com^$dnsrewrite=NXDOMAIN,badfilter", "@@||ads.com^$dnsrewrite,badfilter",
 }
 
 type c06Case struct {
